@@ -1,12 +1,12 @@
 #!/bin/sh
-# tools/run_refactorings.sh [id ...]: apply each harmless refactoring to a scratch copy and run ALL checks (4 at a time); print the non-zero exits
+# tools/run_refactorings.sh [id ...]: apply each harmless refactoring to a scratch copy and run ALL checks (REF_JOBS at a time, native probes at UJVC_QUICK_CASES=400 histories unless overridden); print the non-zero exits
 V="$(cd "$(dirname "$0")/.." && pwd)"; cd "$V"
 IDS="$@"; [ -z "$IDS" ] && IDS=$(ls refactorings)
 PROPS="C01 C02 C03 C04 C05 C06 C07 C08 C09 C10 C11 C12 C13 C14 C15 C16 C18 C19 C20"
 for id in $IDS; do
   S=$(mktemp -d /tmp/ujvc-ref.XXXXXX); mkdir -p "$S/repo"; cp -r /repo/src "$S/repo/src"
   ( cd "$S/repo" && patch -s -p1 < "$V/refactorings/$id/patch.diff" ) || { echo "$id: PATCH FAILED"; rm -rf "$S"; continue; }
-  echo $PROPS | tr ' ' '\n' | xargs -P 4 -I{} sh -c "UJVC_NO_REPLAY=1 UJVC_REPO_SRC='$S/repo/src' UJVC_EVID='$S/evid.{}' '$V/check' {} > '$S/out.{}' 2>&1; echo \$? > '$S/rc.{}'"
+  echo $PROPS | tr ' ' '\n' | xargs -P ${REF_JOBS:-6} -I{} sh -c "UJVC_QUICK_CASES=${UJVC_QUICK_CASES:-400} UJVC_NO_REPLAY=1 UJVC_REPO_SRC='$S/repo/src' UJVC_EVID='$S/evid.{}' '$V/check' {} > '$S/out.{}' 2>&1; echo \$? > '$S/rc.{}'"
   out=""
   for pid in $PROPS; do
     rc=$(cat "$S/rc.$pid")
